@@ -323,6 +323,19 @@ fn sets_and_exceptions(rep: &Report) {
         } }
         term_exception!(MatchError); term_exception!(BadMapError); term_exception!(BadFunctionError); term_exception!(CaseClauseError); term_exception!(WithClauseError);
     }
+    // FunctionClauseError with every combination of its optional fields (module and function present: an absent one comes
+    // back as the text "nil" on the pinned tree, which the statement does not decide)
+    for arity in [None, Some(0u8), Some(2), Some(255)] {
+        for args in [None, Some(OwnedTerm::Nil), Some(OwnedTerm::List(vec![int(1), atom("a")])), Some(OwnedTerm::List((0..255).map(int).collect()))] {
+            rep.add("evaluations", 1);
+            let e = FunctionClauseError { module: Some("Foo".into()), function: Some("bar".into()), arity, args: args.clone() };
+            let t: OwnedTerm = e.clone().into();
+            let back = FunctionClauseError::from_term(&t);
+            let wired = wire(&t).and_then(|w| FunctionClauseError::from_term(&w));
+            let same = |b: &Option<FunctionClauseError>| b.as_ref().map(|b| b.arity == e.arity && b.module == e.module && b.function == e.function && b.args.as_ref().map(crate::denote::denote).map(|d| d.short()) == e.args.as_ref().map(crate::denote::denote).map(|d| d.short())).unwrap_or(false);
+            if !same(&back) || !same(&wired) { rep.violation("FunctionClauseError does not convert back", json!({"arity": format!("{:?}", arity), "args": args.as_ref().map(|a| crate::denote::denote(a).short()), "back": format!("{:?}", back.map(|b| (b.arity, b.args.map(|a| crate::denote::denote(&a).short()))))})); }
+        }
+    }
     // a MapSet struct whose payload is no map is not a set, whatever its size field says
     for size in [0i64, 1, -1] {
         for payload in [int(5), OwnedTerm::Nil, atom("nil"), OwnedTerm::List(vec![int(1)]), OwnedTerm::Tuple(vec![]), OwnedTerm::Binary(vec![])] {
